@@ -12,16 +12,90 @@ pub struct Minimised {
     pub candidates_tried: u64,
     pub original_ops: usize,
     pub final_ops: usize,
+    /// true when every source's expectation in `scenario` was recomputed alone in a fresh
+    /// process (the canonical clean room); false when they still come from the reference pass
+    pub canonical: bool,
 }
 
 fn count_ops(sc: &Scenario) -> usize {
     sc.clients.iter().map(Vec::len).sum()
 }
 
+/// Evaluates a candidate in a FRESH child process (`c19sim eval <file>`): statics and
+/// thread-locals of the lexer under test must not carry over from one candidate to the next,
+/// or a candidate could "fail" only because of what an earlier candidate left behind - and
+/// the final replay file, run in a new process, would not reproduce.
 fn fails(sc: &Scenario, class: &str, tried: &mut u64) -> Option<Violation> {
     *tried += 1;
-    let r = run_scenario(sc);
-    r.violations.into_iter().find(|v| v.class() == class)
+    match eval_in_child(sc) {
+        Some(vs) => vs.into_iter().find(|v| v.class() == class),
+        // could not spawn: fall back to this process
+        None => run_scenario(sc).violations.into_iter().find(|v| v.class() == class),
+    }
+}
+
+fn scratch_dir() -> std::path::PathBuf {
+    let d = std::path::PathBuf::from(
+        std::env::var("C19_SCRATCH").unwrap_or_else(|_| "/verif/work/minimise".to_string()),
+    );
+    let _ = std::fs::create_dir_all(&d);
+    d
+}
+
+fn eval_in_child(sc: &Scenario) -> Option<Vec<Violation>> {
+    let path = scratch_dir().join(format!("cand-{}.json", std::process::id()));
+    std::fs::write(&path, crate::gen::scenario_to_json(sc).to_string_compact()).ok()?;
+    let exe = std::env::current_exe().ok()?;
+    let out = std::process::Command::new(exe).arg("eval").arg(&path).output().ok()?;
+    let _ = std::fs::remove_file(&path);
+    let text = String::from_utf8_lossy(&out.stdout);
+    if !text.contains("eval-done") {
+        // the child died (stall, abort): not usable as a candidate verdict
+        return Some(vec![]);
+    }
+    let mut vs = Vec::new();
+    for l in text.lines() {
+        let f: Vec<&str> = l.split('\t').collect();
+        if f.len() >= 8 && f[0] == "violation" {
+            vs.push(Violation {
+                client: f[1].parse().unwrap_or(0),
+                op: f[2].parse().unwrap_or(usize::MAX),
+                what: match f[3] {
+                    "lex" => "lex",
+                    "stall" => "stall",
+                    _ => "read-shared",
+                },
+                src: f[4].parse().unwrap_or(0),
+                expected: f[5].to_string(),
+                got: f[6].to_string(),
+                detail: f[7].to_string(),
+            });
+        }
+    }
+    Some(vs)
+}
+
+/// Does this scenario show a violation of `class` when run alone in a fresh process?
+pub fn reproduces_in_fresh_process(sc: &Scenario, class: &str) -> bool {
+    let mut n = 0;
+    fails(sc, class, &mut n).is_some()
+}
+
+pub fn expect_in_child_pub(text: &str) -> Option<String> {
+    expect_in_child(text)
+}
+
+/// Clean-room outcome of a text in a fresh child process.
+fn expect_in_child(text: &str) -> Option<String> {
+    let path = scratch_dir().join(format!("text-{}.tsv", std::process::id()));
+    std::fs::write(&path, format!("0\t{}\n", crate::util::esc(text.as_bytes()))).ok()?;
+    let exe = std::env::current_exe().ok()?;
+    let out = std::process::Command::new(exe).arg("keys").arg("--file").arg(&path).output().ok()?;
+    let _ = std::fs::remove_file(&path);
+    let text = String::from_utf8_lossy(&out.stdout);
+    let line = text.lines().find(|l| l.starts_with("0\t"))?;
+    let key = line.split_once('\t')?.1;
+    String::from_utf8(crate::util::unesc(key).ok()?).ok()
 }
 
 fn remove_client(sc: &Scenario, c: usize) -> Scenario {
@@ -87,6 +161,8 @@ pub fn minimise(original: &Scenario, first: &Violation, limit: Duration) -> Mini
     }
 
     let mut progress = true;
+    let mut canonical = false;
+    let mut canonical_failed = false;
     while progress && t0.elapsed() < limit {
         progress = false;
         // 2. drop clients
@@ -132,6 +208,31 @@ pub fn minimise(original: &Scenario, first: &Violation, limit: Duration) -> Mini
                 chunk /= 2;
             }
             best = gc_sources(&best);
+        }
+        // 3b. once few sources are left, switch to canonical expectations: each source alone
+        // in a fresh process (the reference pass lexes thousands of sources per process, so
+        // its table may itself carry history of a changed lexer)
+        if !canonical && !canonical_failed {
+            let trimmed = gc_sources(&best);
+            if trimmed.sources.len() <= 64 {
+                let mut cand = trimmed.clone();
+                for src in &mut cand.sources {
+                    if let Some(k) = expect_in_child(&src.text) {
+                        src.expect = k;
+                    }
+                }
+                if let Some(v) = fails(&cand, &class, &mut tried) {
+                    best = cand;
+                    best_v = v;
+                    canonical = true;
+                    progress = true;
+                } else {
+                    // only reproducible against the reference table: keep that, stop here
+                    canonical_failed = true;
+                    best = trimmed;
+                    break;
+                }
+            }
         }
         // 3. drop ops, last first
         for c in 0..best.clients.len() {
@@ -263,7 +364,7 @@ pub fn minimise(original: &Scenario, first: &Violation, limit: Duration) -> Mini
         }
         // 6. shrink the text of the source the violation is about
         best = gc_sources(&best);
-        for si in 0..best.sources.len() {
+        for si in 0..(if canonical { best.sources.len() } else { 0 }) {
             loop {
                 if t0.elapsed() > limit {
                     break;
@@ -280,10 +381,10 @@ pub fn minimise(original: &Scenario, first: &Violation, limit: Duration) -> Mini
                         let mut t = String::with_capacity(text.len());
                         t.push_str(&text[..bounds[i]]);
                         t.push_str(&text[bounds[i + chunk]..]);
-                        let expect = match clean_room(&t) {
+                        let expect = expect_in_child(&t).unwrap_or_else(|| match clean_room(&t) {
                             RefResult::Done(o) => o.key(),
                             RefResult::Stalled => "S".to_string(),
-                        };
+                        });
                         let mut cand = best.clone();
                         cand.sources[si].text = t;
                         cand.sources[si].expect = expect;
@@ -312,5 +413,5 @@ pub fn minimise(original: &Scenario, first: &Violation, limit: Duration) -> Mini
         }
     }
     let final_ops = count_ops(&best);
-    Minimised { scenario: best, violation: best_v, candidates_tried: tried, original_ops, final_ops }
+    Minimised { scenario: best, violation: best_v, candidates_tried: tried, original_ops, final_ops, canonical }
 }
